@@ -4,6 +4,7 @@ import numpy as np
 from lib import common as C
 
 GEN = ['ComputeL', 'MultiplyBasis']
+IMPORTS = ['C03/basis_product', 'C03/two_codings_agree', 'C03/rs_matrix_den', 'C03/rmatmul_den']
 TRUSTED = ['the formal (dual-number) derivative of a polynomial expression is its analytic derivative (textbook differentiation rules)',
            'inspect.getsource-based output detection of @simple (generated functions are written to a real module file)']
 ASSUMPTIONS = ['the Coq model covers inputs, numbers, nested shifts, .ss, unary minus, + - *, division (all scalar/accumulator combinations) and positive integer powers; '
@@ -500,6 +501,25 @@ def check_path(blk, b, rng):
                 return dict(what='impulse_nonlinear differs from the reference interpreter of the DSL', input=dict(kind='path', outs=b['outs'], src=[py(x) for x in b['outs']],
                             ss=b['ss'], T=T, nin=nin, paths={str(k): v for k, v in paths.items()}, output=j), observed=got.tolist(), expected=exp.tolist(),
                             signature=dict(op='impulse_nonlinear'))
+        # the linear impulse and `J @ path` (sparse-times-vector kernel) equal the dense Jacobian matrix times the path, for every subset of shocked inputs
+        from sequence_jacobian.classes.sparse_jacobians import SimpleSparse
+        J = blk.jacobian(ss, inputs=[f'x{i}' for i in range(nin)], T=T)
+        li = blk.impulse_linear(ss, {f'x{i}': np.array(p) for i, p in paths.items()})
+        for j, e in enumerate(b['outs']):
+            exp = np.zeros(T)
+            for i, pth in paths.items():
+                ent = J.nesteddict.get(f'y{j}', {}).get(f'x{i}')
+                if ent is not None:
+                    dm = ent.matrix(T) if isinstance(ent, SimpleSparse) else np.asarray(ent)
+                    exp = exp + dm @ np.array(pth)
+                    av = ent @ np.array(pth)
+                    if np.abs(np.asarray(av) - dm @ np.array(pth)).max() > 1e-12 * max(1, np.abs(dm).max()):
+                        return dict(what='a Jacobian entry applied to a path (J @ vector) differs from its own dense matrix times the path', input=dict(kind='path', outs=b['outs'], src=[py(x) for x in b['outs']],
+                                    ss=b['ss'], T=T, nin=nin, paths={str(k): v for k, v in paths.items()}, output=j, shocked=i), signature=dict(op='sparse-apply'))
+            got = np.asarray(li[f'y{j}']) if f'y{j}' in li.toplevel else np.zeros(T)
+            if np.abs(got - exp).max() > 1e-12 * max(1, np.abs(exp).max()):
+                return dict(what='impulse_linear differs from the dense Jacobian matrices applied to the shocked paths', input=dict(kind='path', outs=b['outs'], src=[py(x) for x in b['outs']],
+                            ss=b['ss'], T=T, nin=nin, paths={str(k): v for k, v in paths.items()}, output=j), observed=got.tolist(), expected=exp.tolist(), signature=dict(op='impulse_linear'))
         # a distinct INITIAL steady state (lags before date 0 read it), with only a subset of the inputs shocked: the unshocked ones must still start from it
         ssi = [v * (1 + rng.choice([-0.2, 0.1, 0.25])) for v in b['ss']]
         ss0 = blk.steady_state({f'x{i}': float(v) for i, v in enumerate(ssi)})
